@@ -418,12 +418,12 @@ def run_harness(exe, casefile, ncases, place="end", timeout=3000):
             break
         last = max(part.keys()) if part else skip
         sig = -p.returncode if p.returncode < 0 else p.returncode
-        kind = "TIMEOUT" if sig == 14 else "CRASH(%d)" % sig
+        kind = "TIMEOUT" if sig in (14, 27) else "CRASH(%d)" % sig      # SIGPROF: 20 s of CPU time; SIGALRM: wall-clock backstop
         res[last] = (res.get(last) or []) + [kind]
         skip = last + 1
         if kind == "TIMEOUT":
             timeouts += 1
-        # every non-terminating case costs the 20 s of the alarm: after three of them the run stops (the cases behind
+        # every non-terminating case costs 20 s of CPU time: after three of them the run stops (the cases behind
         # are reported as not executed; the non-termination is the finding)
         if time.time() - t0 > timeout or timeouts >= 3:
             break
